@@ -9,6 +9,7 @@ Inductive exn :=
 | DecoderError | EncoderError            (* the two documented classes *)
 | SMILESParserError                      (* internal, converted by encoder *)
 | ValueError | KeyError | IndexError | TypeError | AssertionError | AttributeError
+| ZeroDivisionError | RecursionError
 | OutOfFuel.                             (* model artefact; excluded by theorems *)
 
 Inductive res (A : Type) := Ok (a : A) | Err (e : exn).
@@ -24,6 +25,7 @@ Definition exn_eqb (a b : exn) : bool :=
   | SMILESParserError, SMILESParserError | ValueError, ValueError
   | KeyError, KeyError | IndexError, IndexError | TypeError, TypeError
   | AssertionError, AssertionError | AttributeError, AttributeError
+  | ZeroDivisionError, ZeroDivisionError | RecursionError, RecursionError
   | OutOfFuel, OutOfFuel => true
   | _, _ => false
   end.
@@ -123,6 +125,9 @@ Fixpoint assoc {A} (k : str) (l : list (str * A)) : option A :=
   | [] => None
   | (k', v) :: r => if str_eqb k k' then Some v else assoc k r
   end.
+
+Fixpoint assocZ {A} (k : Z) (l : list (Z * A)) : option A :=
+  match l with [] => None | (k', v) :: r => if Z.eqb k k' then Some v else assocZ k r end.
 
 Fixpoint index_of (k : str) (l : list str) (i : nat) : option nat :=
   match l with
